@@ -4,6 +4,8 @@ package main
 
 import (
 	"fmt"
+	"go/token"
+	"go/types"
 	"strings"
 
 	"golang.org/x/tools/go/ssa"
@@ -163,4 +165,93 @@ func storesInPkg(m *Model, f *ssa.Function, loc string, seen map[*ssa.Function]b
 		}
 	})
 	return found
+}
+
+// ---------- SPLIT-1 ----------
+
+func init() {
+	register(&Rule{
+		ID: "SPLIT-1",
+		Doc: "the component split loses nothing: in the traversal of package connected (the recursive function and the closures nested in it) every insertion into a visited set - a map keyed by *Node or *Edge - is conditional on nothing but a membership test of that same set for that same key; " +
+			"an edge recorded only when, say, its far end is still unvisited drops every edge that closes an undirected cycle (parallel and antiparallel copies, chords) from its component, and the output is collected from the components",
+		Floor: 2,
+		Ctl:   []string{"internal__graph__connected__split1.go.txt"},
+		Run:   runSplit1,
+	})
+}
+
+func runSplit1(m *Model, r *RuleResult) {
+	top := func(f *ssa.Function) *ssa.Function {
+		for f.Parent() != nil {
+			f = f.Parent()
+		}
+		return f
+	}
+	for _, f := range m.Src {
+		if shortPkg(pkgPathOf(f)) != "internal/graph/connected" {
+			continue
+		}
+		t := top(f)
+		// only traversal families: the top function is called (statically) from itself or from one of its literals
+		recursive := false
+		for _, g := range m.Src {
+			if top(g) == t && len(staticCalls(g, func(c *ssa.Function) bool { return c == t })) > 0 {
+				recursive = true
+			}
+		}
+		if !recursive {
+			continue
+		}
+		loops := naturalLoops(f)
+		n := 0
+		eachInstr(f, func(in ssa.Instruction) {
+			mu, ok := in.(*ssa.MapUpdate)
+			if !ok {
+				return
+			}
+			mt, ok := mu.Map.Type().Underlying().(*types.Map)
+			if !ok {
+				return
+			}
+			kind := ""
+			switch namedKey(mt.Key()) {
+			case igNode:
+				kind = "node"
+			case igEdge:
+				kind = "edge"
+			default:
+				return
+			}
+			n++
+			key := fmt.Sprintf("visited-%s-insert:%s#%d", kind, funcKey(f), n)
+			ctl := m.FuncIsPosctl(f)
+			var bad []string
+			for _, d := range iterationControlDeps(in.Block(), loops) {
+				mp, k, isTest := membershipTest(d.If.Cond)
+				if isTest && k == mu.Key && sameMapValue(mp, mu.Map) {
+					continue
+				}
+				bad = append(bad, d.If.Cond.String()+" at "+m.Pos(d.If.Cond.Pos()))
+			}
+			if len(bad) == 0 {
+				r.add(Obligation{Key: key, Pos: m.Pos(in.Pos()), Desc: "the " + kind + " is recorded as visited whenever it is reached (only its own membership test guards the insertion)", Verdict: "holds", Control: ctl})
+			} else {
+				r.add(Obligation{Key: key, Pos: m.Pos(in.Pos()), Desc: "every reached " + kind + " must be recorded in its component", Verdict: "violation",
+					Detail: "the insertion also depends on " + strings.Join(bad, "; ") + ": " + kind + "s that are reached when that condition fails are left out of the component, hence out of the returned layout", Control: ctl})
+			}
+		})
+	}
+}
+
+// sameMapValue: the two map operands denote the same map (same SSA value, or loads of the same cell / same parameter).
+func sameMapValue(a, b ssa.Value) bool {
+	if a == b {
+		return true
+	}
+	ua, ok1 := a.(*ssa.UnOp)
+	ub, ok2 := b.(*ssa.UnOp)
+	if ok1 && ok2 && ua.Op == token.MUL && ub.Op == token.MUL && ua.X == ub.X {
+		return true
+	}
+	return false
 }
